@@ -89,6 +89,310 @@ def flag? (s : String) : Option Bool :=
 /-- slack report for an inversion/gcd run: `iterations trips slack` -/
 def slackTok (iters trips : Nat) : String := s!"{iters} {trips} {iters - trips}"
 
+/-! ### hook-level ops (`crypto_bigint::verif_hooks::{safegcd, safegcd_boxed}`): the safegcd building blocks on
+    plain limb lists.  L1 = the model function (`CB.SafeGcd.*`) the lemmas of C10 are stated about; L0 = plain
+    `Int` arithmetic on the two's-complement values, printed where the inputs are in the function's domain
+    (proper 62-bit limbs; `f` odd for `jump`; …), otherwise L1 alone. -/
+
+def parseLimbs (s : String) : Option (List Nat) :=
+  (s.splitOn ",").mapM fun t => (hexToNat? t).bind fun x => if x < 2 ^ 64 then some x else none
+
+def limbsTok (l : List Nat) : String := String.intercalate "," (l.map natToHex)
+
+def i64? (s : String) : Option Int :=
+  (hexToNat? s).bind fun x => if x < 2 ^ 64 then some (wrapI64 (x : Nat)) else none
+
+def x64 (x : Int) : String := natToHex (toU64 x)
+
+def parseMat (s : String) : Option Mat :=
+  match (s.splitOn ",").mapM i64? with
+  | some [a, b, c, d] => some ⟨a, b, c, d⟩
+  | _ => none
+
+/-- every limb is a proper 62-bit limb -/
+def norm62 (l : List Nat) : Bool := l.all (· ≤ MASK)
+
+/-- the `n` limbs (62 bits each) of `x` modulo `2^(62 n)` (two's complement) -/
+def toUnsat (n : Nat) (x : Int) : List Nat :=
+  let r := (x % ((2 : Int) ^ (62 * n))).toNat
+  (List.range n).map fun i => (r / 2 ^ (62 * i)) % 2 ^ 62
+
+/-- signed reduction modulo `2^(62 n)` -/
+def wrapS (n : Nat) (x : Int) : Int :=
+  let m := (2 : Int) ^ (62 * n)
+  let r := x % m
+  if r < m / 2 then r else r - m
+
+def bitLen (x : Nat) : Nat := if x = 0 then 0 else Nat.log2 x + 1
+
+/-- inverse of an odd word modulo `2^62` (Newton; plain `Nat`) -/
+def inv62 (w : Nat) : Nat :=
+  let r := 2 ^ 62
+  let stp := fun x => (x * ((2 * r + 2 - (w * x) % r) % r)) % r
+  stp (stp (stp (stp (stp (stp 1)))))
+
+/-- the divstep of Bernstein–Yang on integers, with the transition matrix scaled by `2` per step, in the form the
+    crate uses: if `δ > 0` and `g` is odd, first swap `(δ, f, g) ↦ (−δ, g, −f)` (no step consumed), then
+    `(δ, f, g) ↦ (δ+1, f, (g + (g mod 2) f)/2)`.  For odd `f` this is `(1−δ, g, (g−f)/2)` resp.
+    `(1+δ, f, (g + (g mod 2) f)/2)` of the paper; for even `f` (only with `g` odd, `δ > 0`) the division stays exact. -/
+structure DV where
+  delta : Int
+  f : Int
+  g : Int
+  u : Int
+  v : Int
+  q : Int
+  r : Int
+
+def divstepSpec (s0 : DV) : DV :=
+  let s : DV := if s0.delta > 0 ∧ s0.g % 2 = 1 then ⟨-s0.delta, s0.g, -s0.f, s0.q, s0.r, -s0.u, -s0.v⟩ else s0
+  let b := s.g % 2
+  ⟨s.delta + 1, s.f, (s.g + b * s.f) / 2, 2 * s.u, 2 * s.v, s.q + b * s.u, s.r + b * s.v⟩
+
+def divstepsSpec : Nat → DV → DV
+  | 0, s => s
+  | n + 1, s => divstepsSpec n (divstepSpec s)
+
+def matTok (d : Int) (t : Mat) : String := s!"{x64 d} {x64 t.t00} {x64 t.t01} {x64 t.t10} {x64 t.t11}"
+
+/-- `jump(f, g, delta)`; generated only for `f` odd, or `f` even with `g` odd and `delta > 0` (the first step
+    swaps) — for any other even `f` the inner loop of the crate does not terminate; `|delta| ≤ 2^63 − 64`. -/
+def runJump (f g : List Nat) (delta : Int) : String :=
+  let r := jump f g delta
+  let s := divstepsSpec 62 ⟨delta, wrapI64 (f.headD 0 : Nat), ((g.headD 0 : Nat) : Int), 1, 0, 0, 1⟩
+  both (matTok r.1 r.2) (matTok s.delta ⟨s.u, s.v, s.q, s.r⟩)
+
+/-- matrix entries a `fg` / `de` line may carry: no `i64::MIN` (its negation traps) -/
+def matOK (t : Mat) : Bool :=
+  let lim : Int := 2 ^ 63
+  (-lim < t.t00 && t.t00 < lim) && (-lim < t.t01 && t.t01 < lim) && (-lim < t.t10 && t.t10 < lim) && (-lim < t.t11 && t.t11 < lim)
+
+def runFg (f g : List Nat) (t : Mat) : String :=
+  let n := f.length
+  let r := fg f g t
+  let l1 := s!"{limbsTok r.1} {limbsTok r.2}"
+  if norm62 f && norm62 g then
+    let F := uval f
+    let G := uval g
+    both l1 s!"{limbsTok (toUnsat n (wrapS n (t.t00 * F + t.t01 * G) / 2 ^ 62))} {limbsTok (toUnsat n (wrapS n (t.t10 * F + t.t11 * G) / 2 ^ 62))}"
+  else l1
+
+def runDe (m : List Nat) (inverse : Int) (t : Mat) (d e : List Nat) : String :=
+  let n := m.length
+  let r := de m inverse t d e
+  let l1 := s!"{limbsTok r.1} {limbsTok r.2}"
+  if norm62 m && norm62 d && norm62 e then
+    let M := uval m
+    let D := uval d
+    let E := uval e
+    let dn : Int := if D < 0 then 1 else 0
+    let en : Int := if E < 0 then 1 else 0
+    let p62 : Int := 2 ^ 62
+    let row := fun (a b : Int) =>
+      let m0 := a * dn + b * en
+      let c := (a * D + b * E) % p62
+      let md := m0 - (inverse * c + m0) % p62
+      toUnsat n (wrapS n (a * D + b * E + md * M) / p62)
+    both l1 s!"{limbsTok (row t.t00 t.t01)} {limbsTok (row t.t10 t.t11)}"
+  else l1
+
+/-- `divsteps(e, f0, g, inverse)` / `divsteps_vartime` → `(d, f)` (boxed: `(d, g, f)` with a caller-provided
+    starting `d`).  L0 on the contract (`f0 = M` odd, `inverse·M ≡ 1 (mod 2^62)`, `0 ≤ g`, `e ∈ (−2M, M)`,
+    `gcd(M, g) = 1`, room for `(−2M, M)`): `f = ±1` and `d ≡ ±e·g⁻¹ (mod M)`, `d ∈ (−2M, M)` — the
+    alternatives are listed.  With debug assertions the fixed-count routine asserts `g = 0` at the end. -/
+def runDivsteps (boxed vt : Bool) (d0 : Option (List Nat)) (e f0 g : List Nat) (inverse : Int) : String :=
+  let n := f0.length
+  let z := uzero n
+  let start : DS := ⟨1, f0, g, d0.getD z, e⟩
+  let s : DS :=
+    if vt then (dsVtLoop f0 inverse (vtFuel n) start 0).1
+    else dsLoop f0 inverse (if boxed then iterations (ubitsBoxed f0) (ubitsBoxed g) else iterations (ubits f0) (ubits g)) start
+  let gz := ueq s.g (uzero s.g.length)
+  let out := fun (d f : List Nat) => if boxed then s!"{limbsTok d} {limbsTok z} {limbsTok f}" else s!"{limbsTok d} {limbsTok f}"
+  let l1raw := if boxed then s!"{limbsTok s.d} {limbsTok s.g} {limbsTok s.f}" else s!"{limbsTok s.d} {limbsTok s.f}"
+  -- `debug_assert!(g.eq(&ZERO))` exists in the fixed constant-time routine only
+  let l1 := if !boxed && !vt && !gz then l1raw ++ " ## panic" else l1raw
+  let M := uval f0
+  let G := uval g
+  let E := uval e
+  let dZero := match d0 with | none => true | some d => ueq d z
+  if norm62 f0 && norm62 g && norm62 e && dZero && gz && M > 0 && M % 2 = 1 && G ≥ 0 && -2 * M < E && E < M
+      -- "both the modulus and the integer to be inverted should not exceed 2^(62·L − 64)": room for the products of
+      -- `fg` / `de` (|t| ≤ 2^62, |md| < 2^63) in `62·L` bits
+      && M * 2 ^ 66 ≤ (2 : Int) ^ (62 * n) && G * 2 ^ 66 ≤ (2 : Int) ^ (62 * n)
+      && toU64 inverse = inv62 (M.toNat % 2 ^ 62) && Nat.gcd M.toNat G.toNat = 1 then
+    match specInv G.toNat M.toNat with
+    | some gi =>
+      let alts := [1, -1].flatMap fun (sg : Int) =>
+        let r := (sg * E * (gi : Int)) % M
+        [r, r - M, r - 2 * M].map fun dv => out (toUnsat n dv) (toUnsat n sg)
+      l1 ++ " ;; " ++ String.intercalate " || " alts
+    | none => l1
+  else l1
+
+/-- `UnsatInt::to_uint` / `BoxedUnsatInt::to_uint`: negative values are rejected by a `debug_assert!` (fixed) /
+    an `assert!` (boxed). -/
+def runToUint (boxed : Bool) (sat : Nat) (x : List Nat) (lenOK : Bool) : String :=
+  let v := toUint x sat
+  let tok := if boxed then limbsHexLen v else limbsHex v
+  let neg := uisNeg x
+  let l1 := if boxed then (if neg then "panic" else if lenOK then tok else tok ++ " ## panic")
+            else (if neg then tok ++ " ## panic" else tok)
+  if norm62 x && !neg && lenOK then
+    both l1 (if boxed then s!"{sat}:{natToHex (uvalN x % 2 ^ (64 * sat))}" else natToHex (uvalN x % 2 ^ (64 * sat)))
+  else l1
+
+def runNorm (m v : List Nat) (negate : Bool) : String :=
+  let n := m.length
+  let l1 := limbsTok (norm m v negate)
+  let M := uval m
+  let V := uval v
+  if norm62 m && norm62 v && M > 0 && -2 * M < V && V < M && 4 * M < (2 : Int) ^ (62 * n) then
+    both l1 (limbsTok (toUnsat n ((if negate then -V else V) % M)))
+  else l1
+
+/-- the unary / binary `UnsatInt` operations; `boxed` selects the boxed `leading_zeros` (which walks the limbs from
+    the least significant one, as written in safegcd/boxed.rs — L1 alone, see notes/C10.md). -/
+def runUnsat (boxed : Bool) (name : String) (a : List Nat) (b : Option (List Nat)) (k : Option Int) : Option String :=
+  let n := a.length
+  let ok := norm62 a && (b.map norm62).getD true
+  let A := uval a
+  let two (l1 l0 : String) := if ok then both l1 l0 else l1
+  match name, b, k with
+  | "add", some b, _ => some (two (limbsTok (uadd a b)) (limbsTok (toUnsat n (A + uval b))))
+  | "eq", some b, _ => some (two (if ueq a b then "1" else "0") (if A = uval b then "1" else "0"))
+  | "mul", _, some k => some (two (limbsTok (umul a k)) (limbsTok (toUnsat n (A * k))))
+  | "neg", _, _ => some (two (limbsTok (uneg a)) (limbsTok (toUnsat n (-A))))
+  | "shr", _, _ => some (two (limbsTok (ushr a)) (limbsTok (toUnsat n (A / 2 ^ 62))))
+  | "is_negative", _, _ => some (two (if uisNeg a then "1" else "0") (if A < 0 then "1" else "0"))
+  | "lz", _, _ =>
+    if boxed then some (toString (ulzBoxed a)) else some (two (toString (ulz a)) (toString (62 * n - bitLen (uvalN a))))
+  | "bits", _, _ =>
+    if boxed then some (toString (ubitsBoxed a)) else some (two (toString (ubits a)) (toString (bitLen (uvalN a))))
+  | _, _, _ => none
+
+def hookOp (name : String) (args : List String) : Option String :=
+  let bx := name.startsWith "b" && name != "bits"
+  let base := if bx then (name.drop 1).toString else name
+  match base, args with
+  | "inv_mod2_62", [w] =>
+    match parseLimbs w with
+    | some ws =>
+      let l1 := x64 (invMod2_62 ws)
+      some (if ws.headD 0 % 2 = 1 then both l1 (natToHex (inv62 (ws.headD 0))) else l1)
+    | none => badArgs
+  | "iterations", [f, g] =>
+    match f.toNat?, g.toNat? with
+    | some f, some g =>
+      if f > 1000000 ∨ g > 1000000 then badArgs else
+      let d := max f g
+      some (both (toString (iterations f g)) (toString ((49 * d + (if d < 46 then 80 else 57)) / 17)))
+    | _, _ => badArgs
+  | "nlimbs", [s] =>
+    match s.toNat? with
+    | some s => some (both (toString (nlimbsFor (s * 64))) (toString ((64 * s + 64 + 61) / 62)))
+    | none => badArgs
+  | "jump", [f, g, d] =>
+    match parseLimbs f, parseLimbs g, i64? d with
+    | some f, some g, some d =>
+      let lim : Int := 2 ^ 63 - 64
+      if f.isEmpty || g.isEmpty || d > lim || d < -lim then badArgs
+      else if f.headD 0 % 2 = 1 || (g.headD 0 % 2 = 1 && d > 0) then some (runJump f g d) else badArgs
+    | _, _, _ => badArgs
+  | "fg", [f, g, t] =>
+    match parseLimbs f, parseLimbs g, parseMat t with
+    | some f, some g, some t => if f.length = g.length && !f.isEmpty && matOK t then some (runFg f g t) else badArgs
+    | _, _, _ => badArgs
+  | "de", [m, inv, t, d, e] =>
+    match parseLimbs m, i64? inv, parseMat t, parseLimbs d, parseLimbs e with
+    | some m, some inv, some t, some d, some e =>
+      let p62 : Int := 2 ^ 62
+      -- `md`, `me` are computed with trapping `* + -`: stay on the matrices a `jump` can return
+      if m.length = d.length && m.length = e.length && !m.isEmpty
+          && t.t00.natAbs + t.t01.natAbs ≤ p62.toNat && t.t10.natAbs + t.t11.natAbs ≤ p62.toNat then
+        some (runDe m inv t d e) else badArgs
+    | _, _, _, _, _ => badArgs
+  | "divsteps", vt :: rest =>
+    match flag? vt, rest.mapM parseLimbs with
+    | some vt, some ls =>
+      match bx, ls, rest.getLast? with
+      | false, [e, f0, g, _], some inv =>
+        match i64? inv with
+        | some inv => if e.length = f0.length && g.length = f0.length && !f0.isEmpty && f0.headD 0 % 2 = 1
+                      then some (runDivsteps false vt none e f0 g inv) else badArgs
+        | none => badArgs
+      | true, [d, e, f0, g, _], some inv =>
+        match i64? inv with
+        | some inv => if d.length = f0.length && e.length = f0.length && g.length = f0.length && !f0.isEmpty
+                        && f0.headD 0 % 2 = 1 then some (runDivsteps true vt (some d) e f0 g inv) else badArgs
+        | none => badArgs
+      | _, _, _ => badArgs
+    | _, _ => badArgs
+  | "from_uint", [s, l, x] =>
+    if bx then
+      -- `bfrom_uint <sat> <hex> <nlimbs>`: `debug_assert!(nlimbs >= unsat_nlimbs_for_sat_nlimbs(sat))`
+      match s.toNat?, hexToNat? l, x.toNat? with
+      | some s, some v, some n =>
+        if s = 0 || n = 0 then badArgs else
+        let l1 := limbsTok (fromUint (toLimbs s v) n)
+        if n ≥ nlimbsFor (s * 64) then some (both l1 (limbsTok (toUnsat n (v % 2 ^ (64 * s))))) else some (l1 ++ " ## panic")
+      | _, _, _ => badArgs
+    else
+      match s.toNat?, l.toNat?, hexToNat? x with
+      | some s, some l, some x =>
+        -- a limb count other than `safegcd_nlimbs!(64 s)` is the crate's "incorrect number of limbs" panic
+        if l ≠ nlimbsFor (s * 64) then some "panic" else
+        some (both (limbsTok (fromUint (toLimbs s x) l)) (limbsTok (toUnsat l (x % 2 ^ (64 * s)))))
+      | _, _, _ => badArgs
+  | "to_uint", [s, l, x] =>
+    match bx, s.toNat?, l.toNat?, parseLimbs x with
+    | false, some s, some l, some x =>
+      if x.length ≠ l then badArgs else if l ≠ nlimbsFor (s * 64) then some "panic" else some (runToUint false s x true)
+    | _, _, _, _ => badArgs
+  | "to_uint", [x, p] =>
+    match bx, parseLimbs x, p.toNat? with
+    | true, some x, some p =>
+      if p % 64 ≠ 0 || p = 0 || x.isEmpty then badArgs else some (runToUint true (p / 64) x (x.length = nlimbsFor p))
+    | _, _, _ => badArgs
+  | "inverter", [s, m, adj] =>
+    match bx, s.toNat?, hexToNat? m, hexToNat? adj with
+    | false, some s, some m, some adj =>
+      if m % 2 = 0 || s = 0 then badArgs else
+      let inv := Inverter.new s (toLimbs s m) (toLimbs s adj)
+      let n := nlimbsFor (s * 64)
+      some (both s!"{limbsTok inv.modulus} {limbsTok inv.adjuster} {x64 inv.inverse}"
+                 s!"{limbsTok (toUnsat n m)} {limbsTok (toUnsat n adj)} {natToHex (inv62 (m % 2 ^ 62))}")
+    | _, _, _, _ => badArgs
+  | "inverter", [s, m, sa, adj] =>
+    match bx, s.toNat?, hexToNat? m, sa.toNat?, hexToNat? adj with
+    | true, some s, some m, some sa, some adj =>
+      -- `adjuster.widen(modulus.bits_precision())`: a wider adjuster is a `debug_assert` in `widen`; generated with sa ≤ s
+      if m % 2 = 0 || s = 0 || sa = 0 || sa > s then badArgs else
+      let inv := Inverter.newBoxed (toLimbs s m) (toLimbs sa adj)
+      let n := nlimbsFor (s * 64)
+      some (both s!"{limbsTok inv.modulus} {limbsTok inv.adjuster} {x64 inv.inverse}"
+                 s!"{limbsTok (toUnsat n m)} {limbsTok (toUnsat n adj)} {natToHex (inv62 (m % 2 ^ 62))}")
+    | _, _, _, _, _ => badArgs
+  | "norm", [s, m, v, neg] =>
+    match s.toNat?, hexToNat? m, parseLimbs v, flag? neg with
+    | some s, some m, some v, some neg =>
+      let n := nlimbsFor (s * 64)
+      if m % 2 = 0 || s = 0 || v.length ≠ n then badArgs else some (runNorm (fromUint (toLimbs s m) n) v neg)
+    | _, _, _, _ => badArgs
+  | nm, [a] =>
+    match parseLimbs a with
+    | some a => if a.isEmpty then badArgs else (runUnsat bx nm a none none).orElse fun _ => none
+    | none => badArgs
+  | "mul", [a, k] =>
+    match parseLimbs a, i64? k with
+    | some a, some k => if a.isEmpty || k = -(2 : Int) ^ 63 then badArgs else runUnsat bx "mul" a none (some k)
+    | _, _ => badArgs
+  | nm, [a, b] =>
+    match parseLimbs a, parseLimbs b with
+    | some a, some b => if a.isEmpty || a.length ≠ b.length then badArgs else runUnsat bx nm a (some b) none
+    | _, _ => badArgs
+  | _, _ => none
+
 end C10Driver
 open C10Driver
 
@@ -289,6 +593,7 @@ def dispatchC10 : Dispatch := fun op args =>
       let o := gcdBoxed true (toLimbs n f) (toLimbs n g)
       some (slackTok o.iters o.trips)
     | none => badArgs
-  | _, _ => none
+  | _, _ =>
+    if op.startsWith "c10.hook." then hookOp ((op.drop 9).toString) args else none
 
 end CB
